@@ -39,6 +39,8 @@ RULE = (
 )
 
 TOLERANCES = {
+    "assembly: |T / sum_i w_i exp(-mu (L_in + L_out)) / V - 1| with the rule's own points and weights and "
+    "independent path lengths (measured worst over 19 200 cases: < 1e-12)": 1e-9,
     "path: |got - exact| / scale, scale = max(r, h, |base|_inf, |start|_inf)": 1e-9,
     "path: same, when |1 - (line-axis distance / r)^2| < 1e-10 (tangent)": 1e-4,
     "path: backward perturbation of start (x scale) and direction accepted": 1e-13,
@@ -921,6 +923,45 @@ C_KIND = {"cheap": 0.13, "medium": 0.05, "expensive": 0.03}
 REF_NODES = (32, 128, 32)
 
 
+# ----------------------------------------------------------------------------- facet 3b': assembly
+# The map is the weighted sum over the rule's own points; with the package's points and weights (whose
+# validity is the quadrature facet's business) and independently computed path lengths the sum is known
+# to rounding, so the assembly (directions towards the detectors, both legs, attenuation per
+# wavelength, normalisation by the volume) is checked at 1e-9 instead of at the accuracy of the rule.
+
+
+def check_assembly(case):
+    cyl = case["cyl"]
+    kind = case["kind"]
+    dens = _density_for(case, case["mu_size"])
+    mus = _mus(case, dens)
+    T = _run_map(case, cyl, case["beam"], case["detectors"], dens)          # [wavelength, detector]
+    pts_v, w_v = build_cylinder(cyl).quadrature(kind)
+    pts = np.asarray(pts_v.to(unit=cyl["unit"]).values, dtype=float)
+    w = np.asarray(w_v.to(unit=cyl["unit"] + "**3", dtype="float64").values, dtype=float)
+    vol = math.pi * cyl["r"] ** 2 * cyl["h"]
+    beam = np.asarray(case["beam"], dtype=float)
+    dets = _detectors_in(case, cyl["unit"])
+    l_in = geom.ray_lengths_np(cyl["base"], cyl["axis"], cyl["r"], cyl["h"], pts, -beam)
+    worst = 0.0
+    for j, det in enumerate(dets):
+        l_out = geom.ray_lengths_np(cyl["base"], cyl["axis"], cyl["r"], cyl["h"], pts, det[None, :] - pts)
+        for k, mu in enumerate(mus):
+            ref = float(np.sum(w * np.exp(-mu * (l_in + l_out)))) / vol
+            err = abs(T[k, j] / ref - 1)
+            worst = max(worst, err)
+            if not err <= 1e-9:
+                raise Violation(
+                    "map-assembly",
+                    f"map[wavelength {k}, detector {j}] = {T[k, j]!r}, but the rule's own points and weights with "
+                    f"exact path lengths give {ref!r} (rel. deviation {err:.3e} > 1e-9); kind {kind}, mu*size "
+                    f"{mu * _size(cyl):.3g}, axis {cyl['axis']}, beam {case['beam']}")
+    labs = ["kind:" + kind, "axis:" + cyl["axis_class"], "beam:" + case["beam_class"], "unit:" + cyl["unit"],
+            "det_unit:" + case["det_unit"],
+            "err:" + ("<1e-12" if worst < 1e-12 else "<1e-10" if worst < 1e-10 else "<1e-9")]
+    return labs, max(m * _size(cyl) for m in mus) >= 0.3
+
+
 # ----------------------------------------------------------------------------- facet 3c: large maps
 # compute_transmission_map switches to a per-detector loop when quadrature points x detectors
 # exceeds 2e7 (to bound memory).  Metamorphic oracle: the map of many detectors equals the maps of
@@ -1247,6 +1288,10 @@ FACETS = [
           quick=(1, 30), thorough=(4, 200), shrink=False, min_nontrivial=0.2,
           doc="same oracle, beam a few rounding errors off the axis (or along it, then rotated) without "
               "staying bit-identical to it (isolates the near-parallel path-length defect in the map)"),
+    Facet("transmission_assembly", check_assembly, strategy=lambda tier: transmission_cases("any"),
+          quick=(2, 60), thorough=(16, 400), shrink=False, min_nontrivial=0.3,
+          doc="map == sum over the rule's own points and weights of exp(-mu (L_in + L_out)) / V with independently "
+              "computed path lengths, at 1e-9: isolates the assembly from the accuracy of the rule"),
     Facet("transmission_large_map", check_chunked, enumerate=chunked_cases,
           quick=(2, 0), thorough=(16, 0), shrink=False, min_nontrivial=0.5,
           doc="quadrature points x detectors above the 2e7 switch to the per-detector loop (1-d and 2-d "
